@@ -150,11 +150,13 @@ func validKinds(c ext) []string {
 	switch c.Dom {
 	case "ms":
 		if c.Op == "store" {
-			return []string{probe.FaultErr, probe.FaultFalse, probe.FaultWriteErr, probe.FaultWriteFalse}
+			return []string{probe.FaultErr, probe.FaultFalse, probe.FaultWriteErr, probe.FaultWriteFalse, "delay"}
 		}
-		return []string{probe.FaultErr}
-	default:
+		return []string{probe.FaultErr, "delay"}
+	case "alloc":
 		return []string{"err"}
+	default:
+		return []string{"err", "delay"}
 	}
 }
 
@@ -166,6 +168,18 @@ func (e *env) bases() bases {
 
 func (e *env) arm(b bases, fs []fault) {
 	for _, f := range fs {
+		if f.Kind == "delay" {
+			// the call takes one creation-date precision unit (plus a bit) of virtual time, then succeeds
+			switch f.Dom {
+			case "ms":
+				e.w.MS.Delays[b.ms+f.Idx] = tP + 3*time.Second
+			case "kms":
+				e.w.KMS.Delays[b.kms+f.Idx] = tP + 3*time.Second
+			case "aead":
+				e.w.AEAD.Delays[b.aead+f.Idx] = tP + 3*time.Second
+			}
+			continue
+		}
 		switch f.Dom {
 		case "ms":
 			e.w.MS.Faults[b.ms+f.Idx] = f.Kind
@@ -183,6 +197,9 @@ func (e *env) disarm() {
 	e.w.MS.Faults = map[int]string{}
 	e.w.KMS.Faults = map[int]bool{}
 	e.w.AEAD.Faults = map[int]bool{}
+	e.w.MS.Delays = map[int]time.Duration{}
+	e.w.KMS.Delays = map[int]time.Duration{}
+	e.w.AEAD.Delays = map[int]time.Duration{}
 	e.w.Led.FailAt = map[int]bool{}
 }
 
@@ -238,7 +255,8 @@ type verdict struct {
 
 type result struct {
 	trace   []ext
-	fired   int
+	fired   int // error-type faults that fired
+	delays  int // latency injections in the plan
 	opErr   error
 	c02     []verdict
 	c09     []verdict
@@ -330,6 +348,11 @@ func execute(sc scenario, cfgName, op string, fs []fault) (res result) {
 	for _, c := range e.w.MS.CallsFrom(b.ms) {
 		if c.Fault != "" {
 			res.fired++
+		}
+	}
+	for _, f := range fs {
+		if f.Kind == "delay" {
+			res.delays++
 		}
 	}
 	for _, c := range e.w.KMS.Calls()[b.kms:] {
